@@ -55,7 +55,7 @@ theorem evalStack_length (d : Dev) (rx : RxEngine) (st : List SItem) :
           simp [shift_length, ih t hr]
 
 /-- with the uncomparable-panic deviation repaired `evalStack` never faults, on ANY cell sequence -/
-theorem evalStack_total (d : Dev) (h : d.uncmp = false) (rx : RxEngine) (st : List SItem) :
+theorem evalStack_total (d : Dev) (h : d.uncmp = false) (h' : d.ifaceTrap = false) (rx : RxEngine) (st : List SItem) :
     ∃ vs, evalStack d rx st = .ok vs := by
   induction st with
   | nil => exact ⟨[], rfl⟩
@@ -64,7 +64,7 @@ theorem evalStack_total (d : Dev) (h : d.uncmp = false) (rx : RxEngine) (st : Li
     cases it with
     | val v => exact ⟨v :: t, evalStack_val d rx v rest t ht⟩
     | op o =>
-      obtain ⟨v, hv⟩ := evalOp_ok_of_fixed d h rx o (t.getD 0 .null) (t.getD 1 .null)
+      obtain ⟨v, hv⟩ := evalOp_ok_of_fixed d h h' rx o (t.getD 0 .null) (t.getD 1 .null)
       exact ⟨v :: shift o.cnt t, evalStack_step_ok d rx o rest t v ht hv⟩
 
 theorem evalStack_append_error (d : Dev) (rx : RxEngine) (xs tail : List SItem) (f : Fault)
@@ -440,8 +440,8 @@ theorem matchResolved_any_of_ok (d : Dev) (rx : RxEngine) (st : List RItem) (hne
       obtain ⟨mi, h1, h2⟩ := prod_mem_expand st x hx
       exact ⟨mi, h1, by rw [h2]; exact ht⟩
 
-theorem matchResolved_any (d : Dev) (h : d.uncmp = false) (rx : RxEngine) (st : List RItem) (hne : st ≠ []) :
+theorem matchResolved_any (d : Dev) (h : d.uncmp = false) (h' : d.ifaceTrap = false) (rx : RxEngine) (st : List RItem) (hne : st ≠ []) :
     matchResolved d rx st = .ok ((prod st).any (stackTrue d rx)) :=
-  matchResolved_any_of_ok d rx st hne (fun x _ => evalStack_total d h rx x)
+  matchResolved_any_of_ok d rx st hne (fun x _ => evalStack_total d h h' rx x)
 
 end OjgVerif.Script
